@@ -105,6 +105,21 @@ Proof. apply nrm_shape. Qed.
 Lemma pairw_shape dsz hi A B i j : shaped n rsz (pairw fft n nrm dsz hi A B i j).
 Proof. apply nrm_shape. Qed.
 
+Lemma cell_apply_shape dsz hi A B i j r0 : length r0 = rsz -> shaped n rsz (cell_apply fft n nrm dsz hi A B i j r0).
+Proof.
+  intros Hr. unfold cell_apply.
+  destruct (nrm_shape (cnv_apply fft n dsz hi (colsel A i) (colsel B i))) as [Li Si].
+  destruct (nrm_shape (cnv_apply fft n dsz hi (colsel A j) (colsel B j))) as [Lj Sj].
+  destruct (nrm_shape (cnv_pairwise fft n dsz hi (colsel A i) (colsel A j) (colsel B i) (colsel B j) (Nat.eqb i j))) as [Lp Sp].
+  unfold diag, pairw. destruct (Nat.eqb i j) eqn:E.
+  - unfold vcopy, vec_unary. split; [rewrite build_length; exact Hr|]. intros u Hu. rewrite lnth_build by lia.
+    rewrite Li. replace (Nat.ltb u rsz) with true by (symmetry; apply Nat.ltb_lt; exact Hu). apply Si; exact Hu.
+  - unfold vec_add_assign, vec_sub_assign, vnegate, vec_unary. rewrite !build_length, Hr.
+    split; [rewrite build_length; reflexivity|]. intros u Hu. rewrite !lnth_build by lia.
+    rewrite Li, Lj, Lp. replace (Nat.ltb u rsz) with true by (symmetry; apply Nat.ltb_lt; exact Hu).
+    rewrite vadd_length, vsub_length, vneg_length, Si, Sj, Sp by exact Hu. lia.
+Qed.
+
 (* square: the cross column computed as (pairwise - diag_i) - diag_j equals (-diag_i - diag_j) + pairwise, bit for bit *)
 Lemma cell_square_eq_apply dsz hi A B i j r0 : length r0 = rsz ->
   cell_square fft n nrm dsz hi A B i j r0 = cell_apply fft n nrm dsz hi A B i j r0.
@@ -334,19 +349,7 @@ Proof.
 Qed.
 
 Lemma cell_apply_shaped i j r0 : length r0 = rsz -> shaped n rsz (cell_apply fft n nrm dsz hi A B i j r0).
-Proof.
-  intros Hr. unfold cell_apply.
-  destruct (nrm_shape (cnv_apply fft n dsz hi (colsel A i) (colsel B i))) as [Li Si].
-  destruct (nrm_shape (cnv_apply fft n dsz hi (colsel A j) (colsel B j))) as [Lj Sj].
-  destruct (nrm_shape (cnv_pairwise fft n dsz hi (colsel A i) (colsel A j) (colsel B i) (colsel B j) (Nat.eqb i j))) as [Lp Sp].
-  unfold diag, pairw. destruct (Nat.eqb i j) eqn:E.
-  - unfold vcopy, vec_unary. split; [rewrite build_length; exact Hr|]. intros u Hu. rewrite lnth_build by lia.
-    rewrite Li. replace (Nat.ltb u rsz) with true by (symmetry; apply Nat.ltb_lt; exact Hu). apply Si; exact Hu.
-  - unfold vec_add_assign, vec_sub_assign, vnegate, vec_unary. rewrite !build_length, Hr.
-    split; [rewrite build_length; reflexivity|]. intros u Hu. rewrite !lnth_build by lia.
-    rewrite Li, Lj, Lp. replace (Nat.ltb u rsz) with true by (symmetry; apply Nat.ltb_lt; exact Hu).
-    rewrite vadd_length, vsub_length, vneg_length, Si, Sj, Sp by exact Hu. lia.
-Qed.
+Proof. apply cell_apply_shape. exact nrm_shape. Qed.
 
 (* value of a cross column of glwe_tensor_apply: no wrap-around happens, so V(T_ij) = V(pairwise) - V(diag_i) - V(diag_j) *)
 Lemma cval_cell_cross c i j r0 : (i < cols)%nat -> (j < cols)%nat -> length r0 = rsz -> i <> j ->
